@@ -61,9 +61,9 @@ SPEC = {
             "pczts:deferred_builder": 6, "pczts:tx_v5": 45, "pczts:tx_v6": 20,
             "pczts_with:transparent": 50, "pczts_with:sapling": 30, "pczts_with:orchard": 40, "pczts_with:ironwood": 10,
             "extracted": 8, "extracted_with_real_proofs": 3, "handover_through_bytes": 90, "creator_new_probes": 7,
-            "foreign_constructor_cases": 35, "foreign_constructor:sequence-non-final": 9, "foreign_constructor:sequence-final-explicit": 7,
-            "foreign_constructor:required-height-lock": 6, "foreign_constructor:required-time-lock": 6,
-            "foreign_constructor:fallback-absent": 8, "foreign_constructor:fallback-nonzero": 8,
+            "foreign_constructor_cases": 25, "foreign_constructor:sequence-non-final": 5, "foreign_constructor:sequence-final-explicit": 4,
+            "foreign_constructor:required-height-lock": 3, "foreign_constructor:required-time-lock": 3,
+            "foreign_constructor:fallback-absent": 4, "foreign_constructor:fallback-nonzero": 4,
             "field_pair_cases": 600, "field_pair_absent_vs_present": 350,
             "field_pair:global.fallback_lock_time:absent-vs-nonzero": 100, "field_pair:global.fallback_lock_time:absent-vs-zero": 100,
             "field_pair:transparent.inputs[].sequence:absent-vs-non-final": 30, "field_pair:transparent.inputs[].sequence:absent-vs-final": 30,
@@ -72,8 +72,8 @@ SPEC = {
             "memo_plaintext_len:0": 200, "memo_plaintext_len:1": 60, "memo_plaintext_len:511": 30, "memo_plaintext_len:512": 100,
             "growth_pairs": 500, "growth_verdicts": 4000, "growth_expected_ok": 250, "growth_expected_refusal": 250,
             "growth_results_compared": 2000,
-            "growth_pair:transparent.inputs": 60, "growth_pair:transparent.outputs": 90, "growth_pair:sapling.spends": 30,
-            "growth_pair:sapling.outputs": 50, "growth_pair:orchard.actions": 150, "growth_pair:ironwood.actions": 40,
+            "growth_pair:transparent.inputs": 60, "growth_pair:transparent.outputs": 90, "growth_pair:sapling.spends": 20,
+            "growth_pair:sapling.outputs": 50, "growth_pair:orchard.actions": 150, "growth_pair:ironwood.actions": 24,
             "empty_bundle_field_probes": 36, "empty_bundle_probe:sapling.bsk": 4, "empty_bundle_probe:orchard.bsk": 4,
             "empty_bundle_probe:ironwood.bsk": 4, "empty_bundle_probe:ironwood.zkproof": 2, "empty_bundle_probe:orchard.note_version": 2,
             "probe_effects_verdict_stable": 36, "v1_v2_v1_bytes_stable": 6, "v2_v1_v2_bytes_stable": 4,
